@@ -19,7 +19,7 @@ META = {
     "bounds": {"quick": "<= 3 batches of <= 2 rows (every length pattern incl. empty batches), values unbounded symbolic ints, "
                         "group keys symbolic in {0,1,2}; sum/count/size/mean/value_counts on series, groupby sum/count/size/"
                         "mean/var by column and by streaming series; elementwise expressions feeding reductions",
-               "thorough": "<= 4 batches of <= 3 rows, total <= 5 rows"},
+               "thorough": "<= 3 batches of <= 3 rows, total <= 5 rows"},
     "outside": ["IEEE rounding (mean/var are compared over the reals)", "std is checked as var (square root is irrational)",
                 "NaN inputs for var/value_counts/streaming groupers", "cudf", "string/categorical dtypes", "anything pandas does that mframe does not model"],
     "stubs": DC.STUBS,
@@ -185,7 +185,7 @@ def obligations(tier):
     q = tier == "quick"
     B = 300 if q else 1500
     obls = []
-    pats = length_patterns(3, 2, 4) if q else length_patterns(4, 3, 5)
+    pats = length_patterns(3, 2, 4) if q else length_patterns(3, 3, 5)
     for spec in SPECS:
         gb = bool(spec.get("groupby"))
         for lens in pats:
